@@ -212,6 +212,27 @@ def ln_uniform_class():
     return _plugin_prior
 
 
+_plugin_prior2 = None
+
+
+def cos_uniform_class():
+    """A second plug-in prior, this one derived from the built-in Uniform
+    (as a user extending it would): uniform in cos(angle), reported in the
+    angle itself (degrees, linear space)."""
+    global _plugin_prior2
+    if _plugin_prior2 is None:
+        from taurex.core.priors import Uniform
+
+        class CosUniform(Uniform):
+            def sample(self, x):
+                lo, hi = self._low_bounds, self._up_bounds
+                c = math.cos(math.radians(lo)) + x * (
+                    math.cos(math.radians(hi)) - math.cos(math.radians(lo)))
+                return math.degrees(math.acos(max(-1.0, min(1.0, c))))
+        _plugin_prior2 = CosUniform
+    return _plugin_prior2
+
+
 def make_prior(spec):
     """spec: {'kind': 'Uniform'|'LogUniform'|'Gaussian'|'LogGaussian'|
               'LnUniform' (plug-in), 'args': {...}}  -> taurex prior object"""
@@ -220,6 +241,8 @@ def make_prior(spec):
     a = spec['args']
     if kind == 'LnUniform':
         return ln_uniform_class()(bounds=list(a['bounds']))
+    if kind == 'CosUniform':
+        return cos_uniform_class()(bounds=list(a['bounds']))
     if kind == 'Uniform':
         return priors.Uniform(bounds=list(a['bounds']))
     if kind == 'LogUniform':
@@ -249,7 +272,7 @@ def ref_prior_bounds(spec):
     from statistics import NormalDist
     kind = spec['kind']
     a = spec['args']
-    if kind in ('Uniform', 'LogUniform', 'LnUniform'):
+    if kind in ('Uniform', 'LogUniform', 'LnUniform', 'CosUniform'):
         if 'lin_bounds' in a:
             b = [math.log10(x) for x in a['lin_bounds']]
         else:
@@ -268,6 +291,11 @@ def ref_prior_sample(spec, u):
     from statistics import NormalDist
     kind = spec['kind']
     a = spec['args']
+    if kind == 'CosUniform':
+        lo, hi = ref_prior_bounds(spec)
+        c = math.cos(math.radians(lo)) + u * (
+            math.cos(math.radians(hi)) - math.cos(math.radians(lo)))
+        return math.degrees(math.acos(max(-1.0, min(1.0, c))))
     if kind in ('Uniform', 'LogUniform', 'LnUniform'):
         lo, hi = ref_prior_bounds(spec)
         return lo + u * (hi - lo)
